@@ -188,6 +188,15 @@ def check_aggregators(inp):
     lv = np.unique(np.round(y, 5))
     if len(lv) <= 2:   # positive inputs: levels {m, M} resp. {0, s}; independent noise adds the midpoint
       return f'{name}: two clients with the same update get the same quantization noise (their mean stays on the quantization levels)'
+  if name in ('drive', 'rotated'):
+    # rotation-based aggregators: two clients with the same update must not get the same randomness - the mean of two
+    # independently quantized copies differs from one quantized copy (first client key is the same in both calls)
+    p0 = {'w': jnp.asarray(rs.randn(40).astype(np.float32)), 'b': jnp.asarray(rs.randn(7).astype(np.float32))}
+    one, _ = agg.apply(iter([(b'a', p0, 1.0)]), agg.init())
+    two, _ = agg.apply(iter([(b'a', p0, 1.0), (b'b', p0, 1.0)]), agg.init())
+    if all(np.allclose(np.asarray(a), np.asarray(b), rtol=1e-6, atol=1e-7) for a, b in zip(jax.tree_util.tree_leaves(one), jax.tree_util.tree_leaves(two))):
+      return (f'{name}: two clients with the same update are quantized with the same randomness (their mean equals the result '
+              'for one client)')
   if quant is not None:
     same = [(b'a', all_clients[0][1], 1.0), (b'b', all_clients[0][1], 1.0)]
     _, use = jax.random.split(agg.init().rng)
